@@ -142,7 +142,7 @@ func c07Specs(rnd *Rand, tier string) []*c07Spec {
 	// corpus: the test models of the repository (each compiled from its own directory)
 	nCorpus := 40
 	if tier == "thorough" {
-		nCorpus = 400
+		nCorpus = 120
 	}
 	var pick []string
 	for _, f := range files {
@@ -162,7 +162,7 @@ func c07Specs(rnd *Rand, tier string) []*c07Spec {
 	}
 	nGen := 30
 	if tier == "thorough" {
-		nGen = 200
+		nGen = 90
 	}
 	for i := 0; i < nGen; i++ {
 		var txt string
@@ -205,6 +205,30 @@ func c07Specs(rnd *Rand, tier string) []*c07Spec {
 		&c07Spec{Name: "twin-directories-x", Root: "x/part.sysl", Files: twin, Must: []string{`key: "XTypes"`, `key: "XT"`}},
 		&c07Spec{Name: "twin-directories-y", Root: "y/part.sysl", Files: twin, Must: []string{`key: "YTypes"`, `key: "YT"`}},
 		&c07Spec{Name: "twin-directories-both", Root: "main.sysl", Files: twin, Must: []string{`key: "XT"`, `key: "YT"`, `key: "XPart"`, `key: "YPart"`}})
+	// import graphs that reach a file more than once (a diamond, a duplicate import line, a cycle back to the root,
+	// one file under two names): the "already retrieved" branch of the fetch runs beside the first fetch
+	leaf := func(n string) string { return n + ":\n    Ep:\n        ...\n" }
+	specs = append(specs, &c07Spec{Name: "import-diamond", Root: "main.sysl", Files: map[string]string{
+		"main.sysl":   "import a\nimport b\nimport c\nimport shared\nimport shared\n" + leaf("Main"),
+		"a.sysl":      "import shared\nimport deep\n" + leaf("A"),
+		"b.sysl":      "import shared\nimport deep\nimport main\n" + leaf("B"),
+		"c.sysl":      "import ./shared\nimport a\nimport b\n" + leaf("C"),
+		"shared.sysl": "import deep\n" + leaf("Shared"),
+		"deep.sysl":   "import shared\n" + leaf("Deep"),
+	}, Must: []string{`key: "Shared"`, `key: "Deep"`, `key: "A"`, `key: "B"`, `key: "C"`}})
+	// a wide and deep closure: twenty files imported by the root, each with an import of its own and a shared leaf
+	{
+		files := map[string]string{"shared.sysl": leaf("SharedLeaf")}
+		var root strings.Builder
+		for i := 0; i < 20; i++ {
+			fmt.Fprintf(&root, "import m%d\n", i)
+			files[fmt.Sprintf("m%d.sysl", i)] = fmt.Sprintf("import l%d\nimport shared\n", i) + leaf(fmt.Sprintf("M%d", i))
+			files[fmt.Sprintf("l%d.sysl", i)] = fmt.Sprintf("import k%d\n", i) + leaf(fmt.Sprintf("L%d", i))
+			files[fmt.Sprintf("k%d.sysl", i)] = leaf(fmt.Sprintf("K%d", i))
+		}
+		files["main.sysl"] = root.String() + leaf("WideRoot")
+		specs = append(specs, &c07Spec{Name: "import-wide-and-deep", Root: "main.sysl", Files: files, Must: []string{`key: "K19"`, `key: "L0"`, `key: "SharedLeaf"`}})
+	}
 	// compilations that fail half-way (open bracket, open string, bad indentation) followed by a specification
 	// using native type names and free text: what a failed compilation leaves behind must not reach the next one
 	for i, bad := range []string{
@@ -272,7 +296,7 @@ func runC07(res *Result, tier string, rnd *Rand, replay string) {
 	dur := make([]time.Duration, len(specs)) // how long one compilation takes in this binary (the race build is slower)
 	seqReps := 6
 	if tier == "thorough" {
-		seqReps = 20
+		seqReps = 8
 	}
 	if inner {
 		seqReps = 2
@@ -326,12 +350,12 @@ func runC07(res *Result, tier string, rnd *Rand, replay string) {
 	// ---- concurrent rounds ----
 	rounds := 30
 	if tier == "thorough" {
-		rounds = 300
+		rounds = 100
 	}
 	if inner {
 		rounds = 8
 		if tier == "thorough" {
-			rounds = 60
+			rounds = 24
 		}
 	}
 	ks := []int{2, 3, 4, 8, 16, 32, 64}
